@@ -195,6 +195,43 @@ Section WithDecoder.
     if negb (int_r c && rdy_r c) then (c, s, [])
     else let '(c', s', _) := readable c s in owner_loop fuel c' s' [].
 
+  (** The main process's loop, [extract_messages] in
+      [bin/src/command/sessions.rs]: [readable] then [read_message], repeated;
+      it stops at an error that did not change the front capacity once READABLE
+      is no longer both wanted and ready (the second condition is the [fix:]
+      commit for the stall behind a buffer that was full at its ceiling), and
+      returns only the decoded messages. *)
+  Fixpoint extract_loop (fuel : nat) (c : chan) (s : sock) (acc : list (list N))
+    : chan * sock * list (list N) :=
+    match fuel with
+    | O => (c, s, acc)
+    | S fuel' =>
+      let '(c1, s1, _) := readable c s in
+      let old_cap := cap (front c1) in
+      match read_message c1 with
+      | (c2, Ok m) => extract_loop fuel' c2 s1 (acc ++ [m])
+      | (c2, Err _) =>
+        if (cap (front c2) =? old_cap) && negb (int_r c2 && rdy_r c2)
+        then (c2, s1, acc) else extract_loop fuel' c2 s1 acc
+      end
+    end.
+
+  (** wake-ups keep coming for the main-process loop too: event + extract,
+      until a round neither delivers nor consumes anything *)
+  Fixpoint extract_rounds (rounds : nat) (c : chan) (s : sock) (acc : list (list N))
+    : chan * sock * list (list N) :=
+    match rounds with
+    | O => (c, s, acc)
+    | S r =>
+      let before := avail_data (front c) + length (inq s) in
+      let '(c', s', ms) := extract_loop 1000 (handle_events c true false) s [] in
+      match ms with
+      | [] => if avail_data (front c') + length (inq s') =? before then (c', s', acc)
+              else extract_rounds r c' s' acc
+      | _ => extract_rounds r c' s' (acc ++ ms)
+      end
+    end.
+
   (** Wake-ups keep coming: a READABLE event followed by an owner turn,
       repeated while a turn still produces a message or an error. *)
   Fixpoint drain_rounds (rounds : nat) (c : chan) (s : sock) (acc : list (res (list N)))
